@@ -76,10 +76,17 @@ impl Next<f64> for MeanAbsoluteDeviation {
             0
         };
 
+        let window = &self.deque[..self.count];
+        if window.iter().all(|value| *value == window[0]) {
+            // A constant window has no deviation. The running sum may carry rounding
+            // residue, so the mean derived from it is not exactly that constant.
+            return 0.0;
+        }
+
         let mean = self.sum / self.count as f64;
 
         let mut mad = 0.0;
-        for value in &self.deque[..self.count] {
+        for value in window {
             mad += (value - mean).abs();
         }
         mad / self.count as f64
